@@ -184,7 +184,7 @@ func init() {
 		Assume:      []string{"cache disabled through the verif build-tag hook eval.VerifCacheOff (lookups miss, stores are no-ops)", "non-deterministic extensions modelled by verif_counter() (DontCache)"},
 		QuickCap:    100 * time.Second,
 		ThoroughCap: 20 * time.Minute,
-		HangLimit:   30 * time.Second,
+		HangLimit:   240 * time.Second,
 		Run:         runC04,
 		Replay: func(c *core.Ctx, cs core.Case) *core.Viol {
 			return c04Diff(strings.Split(cs.Data, " ;; "))
